@@ -282,8 +282,8 @@ var def = pbt.Def[Case]{Name: "third-peer-responses", Gen: gen, Run: judge}
 
 func TestProp(t *testing.T) {
 	outerT = t
-	pbt.Check(t, run, def, 3000, 300000)
-	pbt.Check(t, run, defMulti, 2000, 200000)
+	pbt.Check(t, run, def, 3000, 150000)
+	pbt.Check(t, run, defMulti, 2000, 100000)
 }
 
 func TestReplay(t *testing.T) {
